@@ -1,5 +1,6 @@
 import SSDriver.Util
 import SSModel.Extract
+import SSModel.Origin
 namespace SS.Drv.C10
 open Lean SS.Extract SS.Drv
 
@@ -121,7 +122,20 @@ def showOutermost : OutermostRes → String
   | .raiseNoFrame _ => "raise noframe"
   | .outOfFuel => "DIVERGES"
 
+def parseKind (s : String) : SS.Origin.Kind :=
+  match s with
+  | "coroutine" => .coroutine | "generator" => .generator | "asyncgen" => .asyncGenerator
+  | "other" => .other true | "othernw" => .other false | _ => .none
+
+/-- `{"mode":"better_origin","pairs":[[cand,fallback],...]}` → "c"/"f" per pair. -/
+def handleOrigin (j : Json) : Except String String := do
+  let ps ← (← jArr (← jField j "pairs")).toList.mapM (fun p => do
+    let a ← jArr p
+    pure (parseKind (← jStr a[0]!), parseKind (← jStr a[1]!)))
+  pure (" ".intercalate (ps.map (fun (c, f) => match SS.Origin.betterOrigin c f with | .candidate => "c" | .fallback => "f")))
+
 def handle (j : Json) : Except String String := do
+  if (j.getObjVal? "mode" >>= Json.getStr?).toOption == some "better_origin" then return (← handleOrigin j)
   let items ← (← jArr (← jField j "items")).mapM parseItem
   let wc := (j.getObjVal? "wc" >>= Json.getBool?).toOption.getD false
   let x ← jNat (← jField j "x")
